@@ -19,13 +19,22 @@ ASSUMPTIONS = [
 ]
 REQUIRED_CLASSES = ["nontrivial", "jerk_pos", "jerk_neg", "jerk_mod6_nonzero", "odd_accel", "r1_zero",
                     "r1_r2_zero", "clear_to_M", "T>2^20", "jerk_zero", "loop_validated",
-                    "ambient_low_precision", "interior_vertex"]
+                    "ambient_low_precision", "interior_vertex", "same_rates_other_duration_or_accumulator"]
 QUICK_SHARDS = 4
 
 ebb_calc = sut.load("ebb_calc")
 
 
 def body(ctx, case):
+    """The main move, preceded (when case["before"] is set) by calls for the same rates with another duration and/or
+    start accumulator: every call is judged on its own, so nothing remembered from one call may leak into the next."""
+    for variation in case.get("before", []):
+        ctx.classes["same_rates_other_duration_or_accumulator"] += 1
+        one(ctx, dict(case, **variation), case)
+    one(ctx, case, case)
+
+
+def one(ctx, case, whole):
     T, rate, accel, jerk, accum, amb = (case["T"], case["rate"], case["accel"], case["jerk"],
                                         case["accum"], case.get("ambient"))
     if not rates_valid(T, rate, accel, jerk):
@@ -68,30 +77,48 @@ def body(ctx, case):
         got = call_sut(ebb_calc.move_dist_t3, T, rate, accel, jerk, accum)
         if tuple(got) != (exp_pos, exp_acc):
             ctx.fail("move_dist_t3(%d, %d, %d, %d, %r) = %r, firmware recurrence gives %r"
-                     % (T, rate, accel, jerk, accum, got, (exp_pos, exp_acc)), case)
+                     % (T, rate, accel, jerk, accum, got, (exp_pos, exp_acc)), whole)
         if not all(type(v) is int for v in got):
-            ctx.fail("move_dist_t3 returned non-integers %r" % (got,), case)
+            ctx.fail("move_dist_t3 returned non-integers %r" % (got,), whole)
         set_ambient(amb)
         got_r = call_sut(ebb_calc.rate_t3, T, rate, accel, jerk)
         if got_r != exp_rate:
             ctx.fail("rate_t3(%d, %d, %d, %d) = %r, recurrence rate at tick T is %r"
-                     % (T, rate, accel, jerk, got_r, exp_rate), case)
+                     % (T, rate, accel, jerk, got_r, exp_rate), whole)
         if jerk == 0:
             set_ambient(amb)
             got_lt = call_sut(ebb_calc.move_dist_lt, rate, accel, T, accum)
             if tuple(got_lt) != tuple(got):
                 ctx.fail("zero jerk: move_dist_t3 %r != move_dist_lt %r for (%d, %d, %d, %r)"
-                         % (got, got_lt, rate, accel, T, accum), case)
+                         % (got, got_lt, rate, accel, T, accum), whole)
     finally:
         mpmath.mp.prec = saved
+
+
+@st.composite
+def variations(draw, T):
+    """1..3 earlier calls with the same rates: any duration T' <= T is valid when T is; any accumulator is."""
+    out = []
+    for _ in range(draw(st.integers(1, 3))):
+        var = {}
+        how = draw(st.sampled_from(["T", "T", "accum", "both"]))
+        if how in ("T", "both"):
+            var["T"] = draw(st.one_of(st.integers(1, T), st.integers(max(1, T - 3), T), st.integers(1, min(T, 4))))
+        if how in ("accum", "both"):
+            var["accum"] = draw(accumulators())
+        out.append(var)
+    return out
 
 
 @st.composite
 def cases(draw):
     zero_jerk = draw(st.integers(0, 9)) == 0
     mv = draw(t3_moves(with_jerk=not zero_jerk))
-    return {"T": mv["T"], "rate": mv["rate"], "accel": mv["accel"], "jerk": mv["jerk"],
+    case = {"T": mv["T"], "rate": mv["rate"], "accel": mv["accel"], "jerk": mv["jerk"],
             "accum": draw(accumulators()), "ambient": draw(AMBIENT)}
+    if draw(st.integers(0, 3)) == 0:
+        case["before"] = draw(variations(case["T"]))
+    return case
 
 
 def small_grid():
